@@ -1,10 +1,12 @@
 /- Registry of line-protocol commands: one `xxxCmds` list per Driver/*.lean file. -/
 import QExPy.Driver.Json
 import QExPy.Driver.Expr
+import QExPy.Driver.Fit
 namespace QExPy.Drv
 open Lean
 
 def allCmds : List (String × (Json → R Json)) :=
   exprCmds
+  ++ fitCmds
 
 end QExPy.Drv
